@@ -133,3 +133,197 @@ Lemma sort_lex_pinned_refuted : exists I, sort_spec_ok I (sort_lex_pinned I) = f
 Proof. exists [(0, 0, 8); (0, 0, 6)]. vm_compute. reflexivity. Qed.
 Lemma sort_lex_fixed_ok I : Permutation (sort_lex_fixed I) I /\ sortedb key3_leb (sort_lex_fixed I) = true.
 Proof. exact (sort_full_ok I). Qed.
+
+(* ---------- coverage basics ---------- *)
+Lemma cov_nil x : cov [] x = 0. Proof. reflexivity. Qed.
+Lemma cov_cons i I x : cov (i :: I) x = b2z (covers x i) + cov I x.
+Proof. reflexivity. Qed.
+Lemma cov_app I J x : cov (I ++ J) x = cov I x + cov J x.
+Proof. unfold cov. rewrite map_app, sumZ_app. reflexivity. Qed.
+Lemma b2z_range b : 0 <= b2z b <= 1. Proof. destruct b; simpl; lia. Qed.
+Lemma cov_nonneg I x : 0 <= cov I x.
+Proof. induction I as [|i I IH]; [rewrite cov_nil; lia|]. rewrite cov_cons. pose proof (b2z_range (covers x i)). lia. Qed.
+Lemma cov_perm I J x : Permutation I J -> cov I x = cov J x.
+Proof. intros H. unfold cov. apply sumZ_map_perm. exact H. Qed.
+Lemma covered_iff I x : covered I x = true <-> exists i, In i I /\ covers x i = true.
+Proof.
+  unfold covered. rewrite Z.ltb_lt. induction I as [|i I IH].
+  - rewrite cov_nil. split; [lia|intros [i [[] _]]].
+  - rewrite cov_cons. pose proof (cov_nonneg I x). destruct (covers x i) eqn:E; cbn [b2z].
+    + split; [intros _; exists i; split; [left; reflexivity|exact E]|intros _; lia].
+    + split.
+      * intros H1. destruct IH as [IH _]. destruct IH as [j [Hj Hc]]; [lia|]. exists j. split; [right; exact Hj|exact Hc].
+      * intros [j [[Hj|Hj] Hc]]; [subst; congruence|]. destruct IH as [_ IH]. assert (0 < cov I x) by (apply IH; exists j; tauto). lia.
+Qed.
+
+(* ---------- arange ---------- *)
+Lemma arange_from_app s n m : arange_from s (n + m) = arange_from s n ++ arange_from (s + Z.of_nat n) m.
+Proof.
+  revert s. induction n as [|n IH]; intros s; simpl.
+  - f_equal. lia.
+  - f_equal. rewrite IH. do 2 f_equal. lia.
+Qed.
+Lemma arange_from_length s n : length (arange_from s n) = n.
+Proof. revert s. induction n as [|n IH]; intros s; simpl; [reflexivity|]. rewrite IH. reflexivity. Qed.
+Lemma map_const {T U} (f : T -> U) v l : (forall x, In x l -> f x = v) -> map f l = repeat v (length l).
+Proof.
+  induction l as [|x l IH]; intros H; simpl; [reflexivity|].
+  rewrite H by (left; reflexivity). f_equal. apply IH. intros y Hy. apply H. right. exact Hy.
+Qed.
+Lemma In_bases size x : In x (bases size) <-> 0 <= x < size.
+Proof. unfold bases. apply In_arange. Qed.
+
+(* ---------- run-length expansion of accumulated, position-sorted events ---------- *)
+(* weighted count of the events at or before x *)
+Definition wsum (E : list (Z * Z)) (x : Z) : Z := sumZ (map (fun e => if fst e <=? x then snd e else 0) E).
+Lemma wsum_cons e E x : wsum (e :: E) x = (if fst e <=? x then snd e else 0) + wsum E x.
+Proof. reflexivity. Qed.
+Lemma wsum_app E F x : wsum (E ++ F) x = wsum E x + wsum F x.
+Proof. unfold wsum. rewrite map_app, sumZ_app. reflexivity. Qed.
+Lemma wsum_perm E F x : Permutation E F -> wsum E x = wsum F x.
+Proof. intros H. unfold wsum. apply sumZ_map_perm. exact H. Qed.
+Lemma wsum_before E x : (forall e, In e E -> x < fst e) -> wsum E x = 0.
+Proof.
+  induction E as [|e E IH]; intros H; [reflexivity|]. rewrite wsum_cons.
+  rewrite IH by (intros f Hf; apply H; right; exact Hf).
+  specialize (H e (or_introl eq_refl)). destruct (Z.leb_spec (fst e) x); lia.
+Qed.
+
+Lemma pos_sorted_head_le a E : sortedb pos_leb (a :: E) = true -> forall e, In e E -> fst a <= fst e.
+Proof.
+  revert a. induction E as [|b E IH]; intros a H e He; [destruct He|].
+  apply sortedb_cons in H. destruct H as [H1 H2]. unfold pos_leb in H1. apply Z.leb_le in H1.
+  destruct He as [He|He]; [subst; exact H1|]. specialize (IH b H2 e He). lia.
+Qed.
+
+Lemma dedupe_cons2 a b t : dedupe (a :: b :: t) = if fst a =? fst b then dedupe (b :: t) else a :: dedupe (b :: t).
+Proof. reflexivity. Qed.
+Lemma dedupe_head a t : exists v t', dedupe (a :: t) = (fst a, v) :: t'.
+Proof.
+  revert a. induction t as [|b t IH]; intros a.
+  - exists (snd a), []. destruct a; reflexivity.
+  - rewrite dedupe_cons2. destruct (Z.eqb_spec (fst a) (fst b)) as [E|E].
+    + destruct (IH b) as [v [t' H]]. exists v, t'. rewrite H, E. reflexivity.
+    + exists (snd a), (dedupe (b :: t)). destruct a; reflexivity.
+Qed.
+Lemma next_pos_dedupe b t L : next_pos (dedupe (b :: t)) L = fst b.
+Proof. destruct (dedupe_head b t) as [v [t' H]]. rewrite H. reflexivity. Qed.
+Lemma expand_dedupe r L : expand (dedupe r) L = expand r L.
+Proof.
+  induction r as [|a t IH]; [reflexivity|].
+  destruct t as [|b t]; [reflexivity|].
+  rewrite dedupe_cons2. destruct (Z.eqb_spec (fst a) (fst b)) as [E|E].
+  - rewrite IH. destruct a as [p v], b as [q w]. simpl in E. subst. cbn [expand next_pos].
+    rewrite Z.sub_diag. reflexivity.
+  - destruct a as [p v]. cbn [expand]. rewrite IH. rewrite next_pos_dedupe. destruct b; reflexivity.
+Qed.
+
+
+Lemma expand_cum L : forall E' p0 d0 acc,
+  sortedb pos_leb ((p0, d0) :: E') = true -> (forall e, In e ((p0, d0) :: E') -> fst e <= L) ->
+  expand (cum_from acc ((p0, d0) :: E')) L
+  = map (fun x => acc + wsum ((p0, d0) :: E') x) (arange_from p0 (Z.to_nat (L - p0))).
+Proof.
+  induction E' as [|[p1 d1] E'' IH]; intros p0 d0 acc Hs Hle.
+  - cbn [cum_from expand next_pos]. rewrite app_nil_r.
+    rewrite (map_const _ (acc + d0)).
+    + rewrite arange_from_length. reflexivity.
+    + intros x Hx. apply In_arange_from in Hx. rewrite wsum_cons. cbn [fst snd].
+      destruct (Z.leb_spec p0 x); [|lia]. unfold wsum. simpl. lia.
+  - pose proof (pos_sorted_head_le _ _ Hs) as Hhead.
+    apply sortedb_cons in Hs. destruct Hs as [H01 Hs]. unfold pos_leb in H01. cbn [fst] in H01. apply Z.leb_le in H01.
+    assert (HL : p1 <= L) by (apply (Hle (p1, d1)); right; left; reflexivity).
+    change (cum_from acc ((p0, d0) :: (p1, d1) :: E'')) with ((p0, acc + d0) :: cum_from (acc + d0) ((p1, d1) :: E'')).
+    change (cum_from (acc + d0) ((p1, d1) :: E'')) with ((p1, acc + d0 + d1) :: cum_from (acc + d0 + d1) E'') at 1.
+    cbn [expand next_pos].
+    change ((p1, acc + d0 + d1) :: cum_from (acc + d0 + d1) E'') with (cum_from (acc + d0) ((p1, d1) :: E'')).
+    change (repeat (acc + d0 + d1) (Z.to_nat (next_pos (cum_from (acc + d0 + d1) E'') L - p1)) ++ expand (cum_from (acc + d0 + d1) E'') L)
+      with (expand (cum_from (acc + d0) ((p1, d1) :: E'')) L).
+    rewrite (IH p1 d1 (acc + d0) Hs) by (intros e He; apply Hle; right; exact He).
+    replace (Z.to_nat (L - p0)) with (Z.to_nat (p1 - p0) + Z.to_nat (L - p1))%nat by lia.
+    rewrite arange_from_app, map_app. f_equal.
+    + rewrite (map_const _ (acc + d0)); [rewrite arange_from_length; reflexivity|].
+      intros x Hx. apply In_arange_from in Hx. rewrite wsum_cons. cbn [fst snd].
+      destruct (Z.leb_spec p0 x); [|lia].
+      rewrite wsum_before; [lia|]. intros e He. specialize (Hhead e He). cbn [fst] in Hhead.
+      destruct He as [He|He]; [subst e; cbn [fst]; lia|].
+      pose proof (pos_sorted_head_le _ _ Hs e He) as H2. cbn [fst] in H2. lia.
+    + replace (p0 + Z.of_nat (Z.to_nat (p1 - p0))) with p1 by lia.
+      apply map_ext_in. intros x Hx. apply In_arange_from in Hx.
+      rewrite (wsum_cons (p0, d0)). cbn [fst snd]. destruct (Z.leb_spec p0 x); lia.
+Qed.
+
+(* the value changes of one interval's row sum to its indicator *)
+Lemma wsum_row L i x : 0 <= fst i -> fst i <= snd i -> 0 <= x < L ->
+  wsum (row_events L i) x = b2z (covers x i).
+Proof.
+  intros H0 H1 Hx. destruct i as [s e]. unfold row_events, covers. cbn [fst snd] in *.
+  rewrite !wsum_app.
+  assert (A1 : wsum (if 0 <? s then [(0, 0)] else []) x = 0) by (destruct (0 <? s); unfold wsum; simpl; [destruct (0 <=? x); reflexivity|reflexivity]).
+  rewrite A1. unfold wsum at 1. cbn [map sumZ fold_right fst snd].
+  destruct (Z.ltb_spec e L); unfold wsum; cbn [map sumZ fold_right fst snd];
+  destruct (Z.leb_spec s x); destruct (Z.leb_spec e x); destruct (Z.ltb_spec x e); simpl; lia.
+Qed.
+Lemma wsum_rows L I x : (forall i, In i I -> 0 <= fst i /\ fst i <= snd i) -> 0 <= x < L ->
+  wsum (concat (map (row_events L) I)) x = cov I x.
+Proof.
+  intros H Hx. induction I as [|i I IH]; [reflexivity|].
+  cbn [map concat]. rewrite wsum_app, cov_cons. rewrite IH by (intros j Hj; apply H; right; exact Hj).
+  rewrite wsum_row; try lia; apply H; left; reflexivity.
+Qed.
+
+Lemma sorted_head_min {T} (leb : T -> T -> bool) (f : T -> Z) :
+  (forall a b, leb a b = true <-> f a <= f b) ->
+  forall l a, sortedb leb (a :: l) = true -> forall e, In e l -> f a <= f e.
+Proof.
+  intros Hl. induction l as [|b l IH]; intros a H e He; [destruct He|].
+  apply sortedb_cons in H. destruct H as [H1 H2]. apply Hl in H1.
+  destruct He as [He|He]; [subst; exact H1|]. specialize (IH b H2 e He). lia.
+Qed.
+
+(* T1: the pileup is the per-base coverage *)
+Lemma pileup_is_coverage I L : 0 <= L -> (forall i, In i I -> 0 <= fst i /\ fst i <= snd i /\ snd i <= L) ->
+  pileup_model I L = pileup_spec I L.
+Proof.
+  intros HL Hwf. unfold pileup_spec. destruct I as [|i0 I0] eqn:EI.
+  - cbn [pileup_model]. symmetry. unfold bases, arange. rewrite (map_const _ 0) by (intros; reflexivity).
+    rewrite arange_from_length. reflexivity.
+  - rewrite <- EI in *. assert (HI : I <> []) by (rewrite EI; discriminate).
+    assert (Hpm : pileup_model I L = expand (dedupe (cum_from 0 (isort pos_leb (concat (map (row_events L) I))))) L) by (rewrite EI; reflexivity).
+    rewrite Hpm. set (ev := concat (map (row_events L) I)). rewrite expand_dedupe.
+    pose proof (isort_perm pos_leb ev) as Hperm.
+    pose proof (isort_sorted pos_leb pos_leb_total ev) as Hsorted.
+    (* all event positions lie in [0, L], and some event sits at 0 *)
+    assert (Hpos : forall e, In e ev -> 0 <= fst e <= L).
+    { intros e He. unfold ev in He. apply in_concat in He. destruct He as [r [Hr He]].
+      apply in_map_iff in Hr. destruct Hr as [i [Hi Hin]]. subst r. specialize (Hwf i Hin).
+      unfold row_events in He. rewrite !in_app_iff in He. destruct He as [He|[He|He]].
+      - destruct (0 <? fst i); [destruct He as [He|[]]; subst; simpl; lia|destruct He].
+      - destruct He as [He|[]]. subst. simpl. lia.
+      - destruct (snd i <? L); [destruct He as [He|[]]; subst; simpl; lia|destruct He]. }
+    assert (Hzero : exists e, In e ev /\ fst e = 0).
+    { assert (Hi0 : In i0 I) by (rewrite EI; left; reflexivity).
+      specialize (Hwf i0 Hi0). destruct (Z.ltb_spec 0 (fst i0)) as [Hlt|Hge].
+      - exists (0, 0). split; [|reflexivity]. unfold ev. apply in_concat. exists (row_events L i0). split; [apply in_map; exact Hi0|].
+        unfold row_events. apply in_app_iff. left. destruct (Z.ltb_spec 0 (fst i0)); [left; reflexivity|lia].
+      - exists (fst i0, 1). split; [|simpl; lia]. unfold ev. apply in_concat. exists (row_events L i0). split; [apply in_map; exact Hi0|].
+        unfold row_events. apply in_app_iff. right. left. reflexivity. }
+    destruct (isort pos_leb ev) as [|[p0 d0] E'] eqn:Es.
+    { destruct Hzero as [e [He _]]. apply (Permutation_in _ (Permutation_sym Hperm)) in He. destruct He. }
+    assert (Hp0 : p0 = 0).
+    { destruct Hzero as [e [He Hz]]. apply (Permutation_in _ (Permutation_sym Hperm)) in He.
+      assert (0 <= p0) by (apply (Hpos (p0, d0)); apply (Permutation_in _ Hperm); left; reflexivity).
+      destruct He as [He|He]; [subst e; simpl in Hz; lia|].
+      pose proof (pos_sorted_head_le _ _ Hsorted e He) as H1. simpl in H1. lia. }
+    subst p0. rewrite (expand_cum L E' 0 d0 0 Hsorted).
+    + rewrite Z.sub_0_r. unfold bases, arange. apply map_ext_in. intros x Hx. apply In_arange_from in Hx.
+      rewrite Z.add_0_l. rewrite (wsum_perm _ _ x Hperm). unfold ev. apply wsum_rows; [|lia].
+      intros i Hi. specialize (Hwf i Hi). lia.
+    + intros e He. apply (Permutation_in _ Hperm) in He. apply Hpos. exact He.
+Qed.
+
+Lemma sorted_pos_fst_aux (l : list iv) : sortedb pos_leb l = sortedb Z.leb (map fst l).
+Proof.
+  induction l as [|a l IH]; [reflexivity|]. destruct l as [|b l]; [reflexivity|].
+  cbn [map sortedb] in *. rewrite IH. reflexivity.
+Qed.
